@@ -504,7 +504,11 @@ class CombinedCategoricalDissimilarity(AbstractDissimilarity):
         if cat_dissim is None:
             cat_dissim = AbsoluteCategoricalDissimilarity()
 
-        cat_dissim.delta_empty = delta_empty
+        if cat_dissim.delta_empty != delta_empty:
+            # the categorical component takes the combined dissimilarity's delta_empty:
+            # its compiled form must be rebuilt with it too
+            cat_dissim.delta_empty = np.float32(delta_empty)
+            cat_dissim.d_mat = cat_dissim.compile_d_mat()
         self.positional_dissim: AbstractDissimilarity = pos_dissim
         self.categorical_dissim: CategoricalDissimilarity = cat_dissim
         self.alpha = alpha
